@@ -103,13 +103,47 @@ def is_service_class(model: SrcModel, cls: ClassDef) -> bool:
         "attrs.define" in norm(d) or "dataclass" in norm(d) for d in cls.node.decorator_list)
 
 
-def per_call(model: SrcModel, cls: ClassDef) -> bool:
+def instantiation_sites(model: SrcModel) -> Dict[str, List[Tuple[FuncDef, ast.Call]]]:
+    """class qualname -> constructor calls found inside function bodies (resolved through the module's names)."""
+    cached = getattr(model, "_instantiation_sites", None)
+    if cached is not None:
+        return cached
+    out: Dict[str, List[Tuple[FuncDef, ast.Call]]] = {}
+    for fn in model.functions.values():
+        for n in walk_shallow(fn.node):
+            if isinstance(n, ast.Call) and isinstance(n.func, (ast.Name, ast.Attribute)):
+                if isinstance(n.func, ast.Name) and n.func.id in fn.params:
+                    continue
+                res = model.resolve_expr(fn.module, n.func)
+                if isinstance(res, ClassDef):
+                    out.setdefault(res.qualname, []).append((fn, n))
+    model._instantiation_sites = out  # type: ignore[attr-defined]
+    return out
+
+
+def per_call(model: SrcModel, cls: ClassDef, _seen: Optional[Set[str]] = None) -> bool:
+    """Do the instances of `cls` live for one call only? Known per-call kinds (transformers, builders, attrs/dataclass
+    values, exceptions) and private helper classes that are only ever constructed inside functions - unless an instance
+    is kept by a module/class-level assignment or built in the __init__ of a long-lived object."""
     if cls.qualname in long_lived_instances(model):
         return False  # an instance is kept at module/class level: it is not dropped after one call
     mro = model.mro(cls.qualname)
-    return any(b in mro for b in PER_CALL_BASES) or cls.qualname in PER_CALL_CLASSES or any(
-        "attrs.define" in norm(d) or "dataclass" in norm(d) for d in cls.node.decorator_list) or \
-        "builtins.BaseException" in mro
+    if any(b in mro for b in PER_CALL_BASES) or cls.qualname in PER_CALL_CLASSES or any(
+            "attrs.define" in norm(d) or "dataclass" in norm(d) for d in cls.node.decorator_list) or "builtins.BaseException" in mro:
+        return True
+    if any(b in mro for b in SERVICE_BASES):
+        return False
+    _seen = (_seen or set()) | {cls.qualname}
+    sites: List[Tuple[FuncDef, ast.Call]] = []
+    for c in [cls, *model.subclasses(cls.qualname)]:
+        sites.extend(instantiation_sites(model).get(c.qualname, []))
+    if not sites:
+        return False  # never constructed inside the package: lifetime unknown (user code keeps the instances)
+    for fn, _call in sites:
+        if fn.name in ("__init__", "__attrs_post_init__", "__post_init__", "__new__") and fn.cls is not None and fn.cls.qualname not in _seen \
+                and not per_call(model, fn.cls, _seen):
+            return False  # built while a long-lived object is initialised: it may be kept by that object
+    return True
 
 
 def module_level_mutables(model: SrcModel, mod) -> Dict[str, ast.expr]:
